@@ -43,13 +43,21 @@ a_real a_mf_psig(a_real x, a_real a1, a_real c1, a_real a2, a_real c2)
     return a_mf_sig(x, a1, c1) * a_mf_sig(x, a2, c2);
 }
 
+/* (p - q) / (r - s) for 0 <= p - q <= r - s; halves the operands when the width r - s overflows */
+static A_INLINE a_real a_mf_ratio(a_real p, a_real q, a_real r, a_real s)
+{
+    a_real const w = r - s;
+    if (w <= A_REAL_MAX) { return (p - q) / w; }
+    return (p / 2 - q / 2) / (r / 2 - s / 2);
+}
+
 a_real a_mf_trap(a_real x, a_real a, a_real b, a_real c, a_real d)
 {
     if (x < b)
     {
         if (x > a) /* a < x <= b */
         {
-            x = (x - a) / (b - a);
+            x = a_mf_ratio(x, a, b, a);
         }
         else /* x <= a */
         {
@@ -60,7 +68,7 @@ a_real a_mf_trap(a_real x, a_real a, a_real b, a_real c, a_real d)
     {
         if (x < d) /* c <= x < d */
         {
-            x = (d - x) / (d - c);
+            x = a_mf_ratio(d, x, d, c);
         }
         else /* d <= x */
         {
@@ -80,7 +88,7 @@ a_real a_mf_tri(a_real x, a_real a, a_real b, a_real c)
     {
         if (x > a) /* a < x <= b */
         {
-            x = (x - a) / (b - a);
+            x = a_mf_ratio(x, a, b, a);
         }
         else /* x <= a */
         {
@@ -91,7 +99,7 @@ a_real a_mf_tri(a_real x, a_real a, a_real b, a_real c)
     {
         if (x < c) /* b <= x < c */
         {
-            x = (c - x) / (c - b);
+            x = a_mf_ratio(c, x, c, b);
         }
         else if (x == b) /* b == c: the peak itself */
         {
@@ -117,7 +125,7 @@ a_real a_mf_lins(a_real x, a_real a, a_real b)
     }
     else /* a <= x < b */
     {
-        x = (x - a) / (b - a);
+        x = a_mf_ratio(x, a, b, a);
     }
     return x;
 }
@@ -134,7 +142,7 @@ a_real a_mf_linz(a_real x, a_real a, a_real b)
     }
     else /* a <= x < b */
     {
-        x = (b - x) / (b - a);
+        x = a_mf_ratio(b, x, b, a);
     }
     return x;
 }
